@@ -76,6 +76,7 @@ TNext == TReset \/ TAdv \/ TFire \/ TResp \/ TReq \/ TBegin \/ TLin \/ TEnd
 TraceSpec == TInit /\ [][TNext]_tvars
 
 SizeBound == P!SizeBound
-HWM == Mark(l)
+\* record the high-water mark; once the whole trace has been explained (depth-first search) nothing more is explored
+HWM == Mark(l) /\ TLCGetOrDefault(1, 0) < TraceLen
 Post == Report
 ================================================================================
